@@ -31,9 +31,24 @@ func runC14(c *Ctx) {
 			{Name: "block number below the epoch table limit", Unless: fake, Re: `^\(Header#0\.Number\.Uint64\(\) / 30000\) < 2048$`},
 		})
 		// digest/result selection per version
-		ff := c.FactsFocus(vs, `Header#0\.Version`, true, "digest", "result")
-		_, rows := ff.PhiTable("result")
-		_, drows := ff.PhiTable("digest")
+		// the two selected values are identified by their role: the digest is what is compared with MixDigest, the
+		// result is what is converted to an integer and compared with the target
+		ff := c.FactsFocus(vs, `Header#0\.Version`, true, "type:[]byte")
+		var resPhi, digPhi *ssa.Phi
+		for _, cs := range callSites(vs, `^bytes\.Equal$`) {
+			for _, a := range cs.Common().Args {
+				if p, ok := a.(*ssa.Phi); ok {
+					digPhi = p
+				}
+			}
+		}
+		for _, cs := range callSites(vs, `^Int\.SetBytes$`) {
+			if p, ok := cs.Common().Args[1].(*ssa.Phi); ok {
+				resPhi = p
+			}
+		}
+		rows := ff.PhiTableOf(resPhi)
+		drows := ff.PhiTableOf(digPhi)
 		okArgon, okEth := false, false
 		for _, r := range rows {
 			switch {
@@ -58,7 +73,7 @@ func runC14(c *Ctx) {
 		}
 		for _, s := range []seedSite{
 			{vs, "VerifySeal", "Header#0.HashNoNonce().Bytes()", "Header#0.Nonce.Uint64()", "Header#0.Version"},
-			{mine, "mine", "Block#0.Header().HashNoNonce().Bytes()", "phi:nonce", "HeaderVersion#0"},
+			{mine, "mine", "Block#0.Header().HashNoNonce().Bytes()", c14SealedNonce(c, mine), "HeaderVersion#0"},
 			{mh, "MinerHash", "Block#0.header.HashNoNonce().Bytes()", "binary.BigEndian.Uint64(Block#0.header.Nonce[:])", "Block#0.header.Version"},
 		} {
 			f := c.Facts(s.fn)
@@ -106,9 +121,9 @@ func runC14(c *Ctx) {
 					if fa, ok := st.Addr.(*ssa.FieldAddr); ok {
 						switch fieldName(fa) {
 						case "Nonce":
-							okNonce = strings.HasPrefix(fm.tr.term(nil, st.Val, 0), "types.EncodeNonce(phi:nonce")
+							okNonce = mustRe(`^types\.EncodeNonce\(` + PH + `\)$`).MatchString(fm.tr.term(nil, st.Val, 0))
 						case "MixDigest":
-							okMix = strings.HasPrefix(fm.tr.term(nil, st.Val, 0), "common.BytesToHash(phi:digest")
+							okMix = mustRe(`^common\.BytesToHash\(` + PH + `\)$`).MatchString(fm.tr.term(nil, st.Val, 0))
 						}
 					}
 				}
@@ -444,4 +459,13 @@ func freeVarBinding(fn *ssa.Function, v ssa.Value) ssa.Value {
 		}
 	}
 	return nil
+}
+
+// c14SealedNonce: the term of the nonce the miner writes into the sealed header (types.EncodeNonce(x)): the hash input
+// must be built from that very value.
+func c14SealedNonce(c *Ctx, mine *ssa.Function) string {
+	for _, cs := range callSites(mine, `^types\.EncodeNonce$`) {
+		return c.termOf(mine, cs.Common().Args[0])
+	}
+	return "?"
 }
